@@ -8,6 +8,7 @@ extra = sys.argv[4:]
 wt = '/tmp/wt_%s' % prop
 m = '%s/out/m%s' % (wt, k)
 dst = '/verif/seeded/%s-%sm%s' % (prop, tag + '-' if tag else '', k)
+RP = os.environ.get('MSIM_REPO', '/repo')
 VT = os.environ.get('MSIM_VERIF', '/verif')  # a frozen snapshot of /verif may run the checks while /verif itself is being edited
 conf = subprocess.run([VT + '/tools/confirm_seed.sh', wt, m], stdout=subprocess.PIPE, stderr=subprocess.STDOUT, text=True).stdout.strip()
 print('confirm:', conf)
@@ -31,7 +32,7 @@ meta = {
     'needs_to_manifest': ' '.join(notes.split())[:900],
     'confirmed_in_scratch_worktree': conf,
     'what_was_run': ['tools/confirm_seed.sh %s %s  (demo on clean tree, demo with patch, cmake --build + ctest of the 78 tests with patch)' % (wt, m)] +
-                    ['tools/try_seed.sh %s %s/patch.diff  (git -C /repo apply; ./check run %s --tier quick; git -C /repo checkout -- .)' % (p, dst, p) for p in results],
+                    ['tools/try_seed.sh %s %s/patch.diff  (git -C %s apply; ./check run %s --tier quick; git -C %s checkout -- .)%s' % (p, dst, RP, p, RP, '' if RP == '/repo' else '  [%s is a scratch clone of /repo at the same commit, checks run from a worktree of /verif HEAD: parallel lane]' % RP) for p in results],
     'checks': results,
     'detected': results[prop]['exit'] == 1,
 }
